@@ -329,6 +329,24 @@ def runFlowX (f : FlowD) : List String :=
     s!"W running {showNats x.s.store.inflight}",
     s!"W status {fin}" ]
 
+/-- a push from parentless node `i` (Model/FlowFail.lean `push`): nested calls through the hand-made signals -/
+def runPush (f : FlowD) (i : Nat) : List String :=
+  let g := f.graph
+  let exc : Nat → Nat → (Nat × Bool) := fun i _ => (i, true)
+  let refusal : Nat → (Nat × Bool) := fun i => (i, false)
+  let st0 : Signal.Store :=
+    if f.pre then ((FlowFail.push false (f.nodes false) g exc refusal 400 { st := Signal.Store.init, log := [] } i).1).st
+    else Signal.Store.init
+  let res := FlowFail.push false (f.nodes true) g exc refusal 400 { st := st0, log := [] } i
+  let ids := List.range f.n
+  let seen := match res.2 with
+    | none => "-"
+    | some e => if e.2 then s!"raw orig:{e.1}" else s!"raw refusal:{e.1}"
+  [ s!"P exec {showNats ((res.1.log.filter (·.started)).map (·.child))}",
+    s!"P failed {showNats (ids.filter fun i => res.1.st.failed i)}",
+    s!"P seen {seen}" ]
+
+
 /-! ### kinds of raised objects × paths (Model/ExecNest.lean `propagate`) -/
 
 def showLStat : LStat → String
@@ -762,6 +780,9 @@ def step' (s : DSt) (ws : List String) : DSt × List String :=
     | some ts => ({ s with flow := { s.flow with sched := ts } }, [])
     | none => (s, ["bad-op"])
   | ["wrun"] => (s, if s.flow.execs.isEmpty then runFlow s.flow else runFlowX s.flow)
+  | ["wpush", i] => match i.toNat? with
+    | some i => (s, runPush s.flow i)
+    | none => (s, ["bad-op"])
   | "ktab" :: k :: es => match parseKind k, es.mapM (fun e => if e = "1" then some true else if e = "0" then some false else none) with
     | some k, some es => (s, ktabReport "H" KCfg.head k es ++ ktabReport "P" KCfg.proposed k es)
     | _, _ => (s, ["bad-op"])
@@ -788,6 +809,22 @@ def step' (s : DSt) (ws : List String) : DSt × List String :=
     ({ s with lastTree := some g.t.core },
      [s!"wf {s.descs.all (·.f.check)}"] ++ (s.descs.map (fun c => reportComp g.t.core c true)).flatten ++
         [s!"chain {showErr (raised g.t.core)}", s!"status {status}", s!"mid [{",".intercalate (midPaths g.t s.descs)}]"])
+  | ["ncycle", su, ex, em, rc, sf] =>
+    -- ... and the recovery save fails (`sf`): unguarded (`O`: its error replaces the run's) / guarded (`Og`)
+    let b (w : String) : Option Bool := if w = "1" then some true else if w = "0" then some false else none
+    match s.lastTree, b su, b ex, b em, b rc, b sf with
+    | some t, some su, some ex, some em, some rc, some sf =>
+      let c0 := runCycle false su ex em rc (raised t)
+      let blk (tag : String) (guarded : Bool) : List String :=
+        let c := withSave guarded sf (none : Option (Err Path)) (c0.1 |> fun _ => { c0 with ret := match c0.ret with
+          | .raised e => .raised (some e) | .value => .value | .none => .none | .future => .future })
+        let ret := match c.ret with
+          | .value => "value" | .none => "none" | .raised (some _) => "raised" | .raised none => "raised-save"
+          | .future => "future"
+        [ s!"{tag} flags {c.running} {c.failed}", s!"{tag} failedsig {c.failedSignals}", s!"{tag} ransig {c.ranSignals}",
+          s!"{tag} recovery {if c.recovery then "yes" else "no"}", s!"{tag} ret {ret}" ]
+      (s, blk "O" false ++ blk "Og" true)
+    | _, _, _, _, _, _ => (s, ["bad-op"])
   | ["ncycle", su, ex, em, rc] =>
     -- the outermost runnable's own run cycle around the nested run just made
     let b (w : String) : Option Bool := if w = "1" then some true else if w = "0" then some false else none
